@@ -114,6 +114,70 @@ def gen(tier, seed):
     return tmcommon.gen_rows(tier, seed, kinds=False)
 
 
+# --- grid coordinates placed directly, incl. northings CONTINUED across the equator: a southern-convention northing above
+# the false northing (a point north of the equator kept in the southern numbering, as happens at the northern edge of a
+# southern network and with projections whose false northing is small) and a negative northern-convention northing
+def gen_grid(tier, seed):
+    for ell, prj in cfg.TM_CONFIGS:
+        if prj == 'isg2':
+            continue
+        fe, fn, k0, zw, icm = PRJ_PAR[prj]
+        zs = tmcommon.explicit_zones(prj, 'quick')[:4]
+        for z in zs:
+            for hemi, norths in (('South', [fn - 3.0e6, fn - 1.0e3, fn, fn + 1.0e3, fn + 1.0e5, fn + 2.0e6]),
+                                 ('North', [-2.0e6, -1.0e5, -1.0e3, 0.0, 1.0e3, 3.0e6])):
+                yield {'ell': ell, 'prj': prj, 'zone': z, 'hemi': hemi, 'norths': norths,
+                       'easts': [fe - 3.0e5, fe - 1.0e3, fe, fe + 1.0e3, fe + 3.0e5]}
+
+
+def ev_grid(case, rec):
+    ell, prj = cfg.ell_obj(case['ell']), PRJS[case['prj']]
+    a, invf = ELL_AF[case['ell']]
+    fe, fn, k0, zw, icm = PRJ_PAR[case['prj']]
+    z, hemi = case['zone'], case['hemi']
+    cm = cfg.cm_of(case['prj'], z)
+    for north in case['norths']:
+        y = (north - fn) if hemi == 'South' else north
+        easts = np.array(case['easts'], dtype=float)
+        olat, odl, ok_, og = oracle_tm.inverse_np(np.full(len(easts), y), easts - fe, a, invf, k0)
+        for j, east in enumerate(case['easts']):
+            one = dict(case, norths=[north], easts=[east])
+            la, dl = float(olat[j]), float(odl[j])
+            if not (la == la) or not (-80 + 1e-6 <= la <= 84 - 1e-6) or not (-180 <= cm + dl <= 180):
+                rec.skip('outside the band / longitude range per the oracle')
+                continue
+            if not (0 <= north <= 10000000):
+                rec.skip('northing outside the accepted range')
+                continue
+            st, r = rec.call(grid2geo, z, east, north, hemi, ell, prj)
+            co = {'ell': case['ell'], 'prj': case['prj'], 'zone': z, 'hemi': hemi, 'east': east, 'north': north, 'lat': la,
+                  'continued': (hemi == 'South' and la > 0) or (hemi == 'North' and la < 0)}
+            if st != 'ok':
+                rec.fail('grid2geo raised on a grid coordinate inside its accepted range', site='convert:grid2geo', observed=r, case=one, coords=co)
+                continue
+            rec.nontriv((case['ell'], case['prj'], z, hemi, east, north))
+            rec.state((case['ell'], case['prj'], z, float(r[2]).hex(), float(r[3]).hex()))
+            dk, dg = abs(r[2] - float(ok_[j])), abs(r[3] - float(og[j]))
+            dp = max(abs(r[0] - la), abs(r[1] - (cm + dl)))
+            rec.dev('grid_k', dk, one)
+            rec.dev('grid_gamma_deg', dg, one)
+            bad = False
+            if dp > 3e-9:
+                bad = True
+                rec.fail('grid2geo position differs from the exact inverse projection', site='convert:grid2geo:position', observed=[r[0], r[1]],
+                         expected=[la, cm + dl], tol=3e-9, case=one, coords=co)
+            if dk > TOL_K or dk != dk:
+                bad = True
+                rec.fail('inverse point scale factor is not that of the requested projection/ellipsoid', site='convert:grid2geo:psf',
+                         observed=r[2], expected=float(ok_[j]), tol=TOL_K, case=one, coords=co)
+            if dg > TOL_G or dg != dg:
+                bad = True
+                rec.fail('inverse grid convergence differs from the exact projection (sign: grid bearing = azimuth + gamma)',
+                         site='convert:grid2geo:gridconv', observed=r[3], expected=float(og[j]), tol=TOL_G, case=one, coords=co)
+            rec.outcome(('bad-' if bad else 'ok-') + ('continued' if co['continued'] else 'own-side'))
+    rec.sample({'case': dict(case, norths=case['norths'][:2])})
+
+
 # --- two threads at DIFFERENT positions / ellipsoids / projections at the same time ----------
 from gpmc import threads as _thr
 import numpy as _tnp
@@ -136,7 +200,7 @@ from gpmc import callforms as _cf
 from gpmc import interp as _ip
 
 
-SUBCHECKS = [Sub('psf_gridconv', gen, ev_row, chunk=16, floor=1000, envs=24), Sub('threads', _tg, _te, chunk=1, floor=3, poison=False, fresh=True, timeout=3600), Sub('callforms', *_cf.make('C10', 'convert'), chunk=1, floor=1, guard=True), Sub('interpreter', *_ip.make('C10', 'convert'), chunk=1, floor=5, poison=False)]
+SUBCHECKS = [Sub('psf_gridconv', gen, ev_row, chunk=16, floor=1000, envs=24), Sub('grid_direct', gen_grid, ev_grid, chunk=4, floor=300), Sub('threads', _tg, _te, chunk=1, floor=3, poison=False, fresh=True, timeout=3600), Sub('callforms', *_cf.make('C10', 'convert'), chunk=1, floor=1, guard=True), Sub('interpreter', *_ip.make('C10', 'convert'), chunk=1, floor=5, poison=False)]
 
 
 def bounds(tier, seed):
